@@ -51,7 +51,7 @@ def gen(prop, tier, rng):
     scripts = [list(s) for n in range(1, maxlen + 1) for s in itertools.product(OUTCOMES, repeat=n)]
     if tier == "quick":
         # every 1- and 2-outcome script of the model, on a rotating selection of clients / configurations
-        plan = [(scripts[j], cfgs[(j * 5 + c) % len(cfgs)], clients[(j + c) % len(clients)]) for j in range(len(scripts)) for c in range(4)]
+        plan = [(scripts[j], cfgs[(j * 5 + c) % len(cfgs)], clients[(j + c) % len(clients)]) for j in range(len(scripts)) for c in range(16)]
     else:
         plan = [(sc, cfg, cl) for sc in scripts for cfg in cfgs for cl in clients if rng.random() < 0.25]
     for sc, cfg, cl in plan:
